@@ -21,20 +21,18 @@ theorem inv_call {c : Cfg} (httl : 0 < c.ttl) {s : St} (h : Inv c s) (o : Outcom
       · exact h
       · split
         · exact wf3_write_aux h _ _
-        · cases o
-          · exact wf3_remove_aux (wf_save httl _ _)
-          · exact wf3_remove_aux (wf3_write_aux h _ _)
-          · exact wf3_remove_aux (wf3_write_aux h _ _)
+        · cases o <;> first
+            | exact wf3_remove_aux (wf_save httl _ _)
+            | exact wf3_remove_aux (wf3_write_aux h _ _)
 
 theorem inv_done {c : Cfg} (httl : 0 < c.ttl) {s : St} (h : Inv c s) (i : Nat) (o : Outcome) :
     Inv c (done c s i o).1 := by
   unfold done
   split
   · exact h
-  · cases o
-    · exact wf3_remove_aux (wf_save httl _ _)
-    · exact wf3_remove_aux h
-    · exact wf3_remove_aux h
+  · cases o <;> first
+      | exact wf3_remove_aux (wf_save httl _ _)
+      | exact wf3_remove_aux h
 
 theorem inv_step {c : Cfg} (httl : 0 < c.ttl) (s : St) (op : DOp) (h : Inv c s) : Inv c (step c s op).1 := by
   cases op with
@@ -48,10 +46,10 @@ theorem call_age {c : Cfg} (httl : 0 < c.ttl) {s : St} (h : Inv c s) (o : Outcom
     st ≤ s.t.now ∧ s.t.now < st + c.ttl := by
   unfold call at hr
   split at hr
-  · cases o <;> simp at hr
-    obtain ⟨h1, _⟩ := hr
-    subst h1
-    omega
+  · cases o <;> simp at hr <;>
+    · obtain ⟨h1, _⟩ := hr
+      subst h1
+      omega
   · rename_i stamp id0 inner hc
     have hs := cached3_spec h hc
     have key : ∀ r : Res, (r = .fresh st id ∨ r = .stored st id) → r = .stored stamp id0 →
@@ -72,6 +70,8 @@ theorem call_age {c : Cfg} (httl : 0 < c.ttl) {s : St} (h : Inv c s) (o : Outcom
           · exact key _ hr rfl
           · simp at hr
           · simp at hr
+          · exact key _ hr rfl
+          · simp at hr
 
 /-- a stored result that is not older than `early_ttl` is handed out without executing anything and
 without touching the state -/
@@ -86,7 +86,7 @@ theorem call_young {c : Cfg} {s : St} (h : Inv c s) (o : Outcome) {st id x : Nat
 
 /-- a call that finds a stored result answers with it, unless it is a failing foreground refresh -/
 theorem call_from_store {c : Cfg} {s : St} (o : Outcome) {st id x : Nat}
-    (hc : cached3 s.t = some (st, id, x)) (hyp : c.bg = true ∨ o = .ok) :
+    (hc : cached3 s.t = some (st, id, x)) (hyp : c.bg = true ∨ o.raises = false) :
     (call c s o).2.res = .stored st id := by
   unfold call
   simp only [hc]
@@ -99,7 +99,77 @@ theorem call_from_store {c : Cfg} {s : St} (o : Outcome) {st id x : Nat}
       · rename_i hbg
         rcases hyp with hyp | hyp
         · exact absurd hyp hbg
-        · subst hyp; rfl
+        · cases o <;> first | rfl | (simp [Outcome.raises] at hyp)
+
+/-- only an execution with outcome `ok` changes what is stored under the result's key: a call whose execution
+fails, is turned down by the condition or fails in its store step leaves it as it was -/
+theorem call_main {c : Cfg} (hearly : 0 < c.early) (s : St) (o : Outcome) (ho : o ≠ .ok) :
+    (call c s o).1.t.m kMain = s.t.m kMain ∧ (call c s o).1.t.now = s.t.now := by
+  have hw : (s.t.write kAux (.tok 1) (some c.early)).m kMain = s.t.m kMain := by
+    rw [write_m _ _ _ hearly]; simp
+  unfold call
+  split
+  · cases o <;> first | exact absurd rfl ho | exact ⟨rfl, rfl⟩
+  · split
+    · exact ⟨rfl, rfl⟩
+    · split
+      · exact ⟨rfl, rfl⟩
+      · split
+        · exact ⟨hw, rfl⟩
+        · cases o <;> first
+            | exact absurd rfl ho
+            | (refine ⟨?_, rfl⟩; simp only []; rw [remove_m]; simpa using hw)
+
+theorem done_main {c : Cfg} (s : St) (i : Nat) (o : Outcome) (ho : o ≠ .ok) :
+    (done c s i o).1.t.m kMain = s.t.m kMain ∧ (done c s i o).1.t.now = s.t.now := by
+  unfold done
+  split
+  · exact ⟨rfl, rfl⟩
+  · cases o <;> first
+      | exact absurd rfl ho
+      | (refine ⟨?_, rfl⟩; simp only []; rw [remove_m]; simp)
+
+/-- the answer of a call that finds nothing stored: the result of its own execution or the exception of its
+store step -/
+theorem call_empty {c : Cfg} {s : St} (o : Outcome) (hc : cached3 s.t = none) :
+    (call c s o).2.exec = true ∧
+    ((o = .ok ∨ o = .rejected) → (call c s o).2.res = .fresh s.t.now s.nexec) ∧
+    (∀ st l, o = .storeFails st l → (call c s o).2.res = .storeErr l) := by
+  unfold call
+  simp only [hc]
+  cases o <;> simp
+
+/-- whenever the function runs inside a call, the caller is handed what that execution produced — its result, its
+exception, the exception of its store step — or, when it was a foreground refresh that raised nothing, the stored
+result the refresh was started for -/
+theorem call_answer (c : Cfg) (s : St) (o : Outcome) (hx : (call c s o).2.exec = true) :
+    ((call c s o).2.started = false ∧ cached3 s.t = none ∧ (call c s o).2.res = o.result s.t.now s.nexec) ∨
+    ((call c s o).2.started = true ∧
+      ((o.raises = true ∧ (call c s o).2.res = o.result s.t.now s.nexec) ∨
+       (o.raises = false ∧ ∃ st id x, cached3 s.t = some (st, id, x) ∧ (call c s o).2.res = .stored st id))) := by
+  revert hx
+  unfold call
+  cases hc : cached3 s.t with
+  | none =>
+    simp only []
+    intro _
+    left
+    cases o <;> simp [Outcome.result]
+  | some p =>
+    obtain ⟨st, id, x⟩ := p
+    simp only []
+    by_cases h1 : s.t.now ≤ x
+    · rw [if_pos h1]; simp
+    · rw [if_neg h1]
+      by_cases h2 : (s.t.find kAux).isSome = true
+      · rw [if_pos h2]; simp
+      · rw [if_neg h2]
+        cases hb : c.bg
+        · simp only [Bool.false_eq_true, if_false]
+          intro _
+          right
+          cases o <;> simp [Outcome.raises, Outcome.result]
+        · simp
 
 /-! ### at most one refresh at a time -/
 
